@@ -297,13 +297,15 @@ PROPS = {
     "C11": {
         "quick": [
             {"test": "TestC11Compose", "checks": 40000, "shards": 4},
+            {"test": "TestC11Shipped", "checks": 6000, "shards": 3},
         ],
         "thorough": [
-            {"test": "TestC11Compose", "checks": 2400000, "shards": 16},
+            {"test": "TestC11Compose", "checks": 2400000, "shards": 12},
+            {"test": "TestC11Shipped", "checks": 200000, "shards": 4},
         ],
         "assumptions": [
             "lazy includes are written with rooted names: the statement promises literal/computed equality for rooted names only (a lazy relative name resolves against the executing root template, not the referring file)",
-            "all loaders resolve names the same way (slash paths, rooted or relative to the referring file, cleaned)",
+            "C11.compose: all loaders resolve names the same way (slash paths, rooted or relative to the referring file, cleaned); C11.shipped runs the shipped loaders, each with the resolution rule its documentation states (LocalFilesystemLoader with a base directory resolves relative names against the base, HttpFilesystemLoader takes every name from its root)",
             "reads of the real file system are detected through canary files in the worker's working directory whose text must never appear (system calls are not traced)",
         ],
     },
